@@ -164,7 +164,7 @@ def run_case(case, seed):
     else:
         cfgs, complete = D.enum_configs(els, b['mask_deviation_bound'], b['complete_lattice_cap'])
     for cfg in cfgs:
-        D.apply_config(els, cfg, rep=0)
+        D.apply_config(els, cfg, rep=0, via_data=res['states'] % 2 == 1)
         res['states'] += 1
         res['transitions'] += len(cfg)
         desc = D.describe(els, cfg)
@@ -203,6 +203,20 @@ def run_case(case, seed):
                     res['outcomes'].add('equal')
                 if cfg:
                     res['nontrivial'].append(_key(prog, fold, desc, name, full))
+        # re-assigning the (same) cost specification in THIS state rebuilds the per-layer cost-function map: values must not move
+        pit.full_cost = False
+        try:
+            with torch.no_grad():
+                before = {name: float(pit.get_cost(name)) for name in specs}
+                pit.cost_specification = dict(specs)
+                after = {name: float(pit.get_cost(name)) for name in specs}
+            for name in specs:
+                res['evals'] += 1
+                if not tol.cost_close(before[name], after[name])[0]:
+                    add('cost-changes-when-spec-reassigned', f'cost-changes-when-spec-reassigned/{name}/{kk}',
+                        f'cfg={desc}: get_cost({name}) = {before[name]} with the map built at construction, {after[name]} after cost_specification was assigned again', desc)
+        except Exception as e:
+            add('cost-raises', 'cost-raises/spec-reassigned', f'cfg={desc}: {type(e).__name__}: {str(e)[:200]}', desc)
     # ---- single (non-dictionary) specification agrees with the dictionary entry ----------------------------
     if case.get('cfg') is None and cfgs:
         pit.full_cost = False
